@@ -11,8 +11,15 @@ def anyt(t):
     return True
 
 
+def base_of(t):
+    """strip in-place-update wrappers: the value a (mutated / partially overwritten) local started from"""
+    while isinstance(t, tuple) and t and t[0] in ("mut", "updated"):
+        t = t[1]
+    return t
+
+
 def arg(i):
-    return lambda t: t == ("arg", i)
+    return lambda t: base_of(t) == ("arg", i)
 
 
 def const(v):
@@ -613,3 +620,84 @@ def forall_loop(ctx, fn, rule, what, src_pred, mechanisms, sinks=None, require_f
     ctx.violation(rule, fn.key, what, "per-element refusal '%s' does not hold for every element: %s" % (what, why),
                   fn.loc)
     return None
+
+
+# ---------------- share / verifying-share consistency (CODEP decided on terms) ----------------
+
+def unwrap_newtypes(t):
+    """peel newtype aggregates VerifyingShare{0: SerializableElement{0: x}} -> x"""
+    while isinstance(t, tuple) and t and t[0] == "agg" and t[1] == "adt" and len(t[4]) == 1:
+        t = t[4][0][1]
+    return t
+
+
+def strip_newtype_fields(t):
+    """x.signing_share.0.0 -> x.signing_share ; vk.element.0 -> vk"""
+    while isinstance(t, tuple) and t and t[0] == "field" and t[3] in ("0", "element") and \
+            (t[2] or "").rsplit("::", 1)[-1] in ("SigningShare", "VerifyingShare", "SerializableScalar",
+                                                  "SerializableElement", "VerifyingKey", "Randomizer",
+                                                  "CoefficientCommitment", "NonceCommitment", "Nonce"):
+        t = t[1]
+    return t
+
+
+def gen_times(t, scalar_pred):
+    """G * s"""
+    return (is_call(t, name="mul") and len(t[2]) == 2 and
+            (is_call(t[2][0], name="generator") or (t[2][0][0] == "const" and "GENERATOR" in str(t[2][0][2])))
+            and scalar_pred(t[2][1]))
+
+
+def get_field(v, name):
+    """field `name` of a struct-valued term (aggregate, partially overwritten value, or opaque)"""
+    if v[0] == "agg" and v[1] == "adt":
+        d = dict(v[4])
+        if name in d:
+            return d[name]
+    if v[0] == "updated":
+        for k, val in v[2]:
+            if k == (name,):
+                return val
+        return get_field(v[1], name)
+    if v[0] == "mut":
+        return get_field(v[1], name)
+    return ("field", v, None, name)
+
+
+def same_field_owner(s, y, sname, yname):
+    s, y = strip_newtype_fields(unwrap_newtypes(s)), strip_newtype_fields(unwrap_newtypes(y))
+    return (s[0] == "field" and y[0] == "field" and s[3] == sname and y[3] == yname and base_of(s[1]) == base_of(y[1]))
+
+
+LINKED_FIELDS = [("signing_share", "verifying_share"), ("randomizer", "randomizer_element")]
+
+
+def linked(s, y):
+    """y is the public image of s: y = G*s, or (x.signing_share, x.verifying_share) of one well-formed x, or
+    (p.randomizer, p.randomizer_element), or sums/negations of linked pairs"""
+    s0, y0 = unwrap_newtypes(s), unwrap_newtypes(y)
+    if gen_times(y0, lambda u: unwrap_newtypes(u) == s0 or strip_newtype_fields(unwrap_newtypes(u)) == strip_newtype_fields(s0)):
+        return True
+    for a, b in LINKED_FIELDS:
+        if same_field_owner(s0, y0, a, b):
+            return True
+    for op in ("add", "sub"):
+        if is_call(s0, name=op) and is_call(y0, name=op) and len(s0[2]) == 2 and len(y0[2]) == 2:
+            if linked(s0[2][0], y0[2][0]) and linked(s0[2][1], y0[2][1]):
+                return True
+            if op == "add" and linked(s0[2][0], y0[2][1]) and linked(s0[2][1], y0[2][0]):
+                return True
+    if is_call(s0, name="neg") and is_call(y0, name="neg"):
+        return linked(s0[2][0], y0[2][0])
+    return False
+
+
+def key_package_consistent(ctx, fn, kp_term, rule="CODEP", what="verifying_share==G*signing_share"):
+    S = get_field(kp_term, "signing_share")
+    Y = get_field(kp_term, "verifying_share")
+    ok = linked(S, Y)
+    ctx.check(ok, rule, fn.key, what,
+              "the returned KeyPackage's verifying share is not the public image of its signing share: signing share "
+              "= %s, verifying share = %s" % (fmt(S)[:300], fmt(Y)[:300]), fn.loc,
+              {"signing_share": fmt(S)[:300], "verifying_share": fmt(Y)[:300]})
+    return ok
